@@ -4,6 +4,7 @@
 cd "$(dirname "$0")/.."
 export PV_OUT_DIR=${PV_OUT_DIR:-/tmp/pv_seeds_all}
 for d in seeded/*${1}*/; do
+  grep -q "\"superseded\"" "$d/meta.json" && { echo "$(basename $d): superseded (no longer a violation on the repaired tree)"; continue; }
   n=$(basename "$d")
   p="$d/patch_ported.diff"; [ -f "$p" ] || p="$d/patch.diff"
   checks=$(/venv/bin/python -c "import json,sys; m=json.load(open('$d/meta.json')); print(' '.join(sorted(m['checks_quick'])))")
